@@ -1,4 +1,5 @@
 pub mod c08;
+pub mod c10;
 pub mod c14;
 pub mod c15;
 pub mod c17;
@@ -11,6 +12,7 @@ use crate::driver::PropDef;
 pub fn lookup(id: &str) -> Option<&'static PropDef> {
     match id {
         "C08" => Some(&c08::DEF),
+        "C10" => Some(&c10::DEF),
         "C14" => Some(&c14::DEF),
         "C15" => Some(&c15::DEF),
         "C17" => Some(&c17::DEF),
